@@ -81,6 +81,8 @@ pub struct AuditInfo {
     pub inner_nodes: usize,
     pub nonempty_levels: usize,
     pub dead_nodes: usize,
+    /// nodes not reachable from any handle or manager-internal reference
+    pub unreachable: usize,
     pub order: Vec<u32>,
 }
 
@@ -140,6 +142,7 @@ where
         *expected.entry(*id).or_insert(0) += c;
     }
     let mut stored: HashMap<usize, usize> = HashMap::new(); // id -> actual rc
+    let mut children_of: HashMap<usize, Vec<usize>> = HashMap::new();
     let mut total = 0usize;
     let mut nonempty = 0usize;
     let mut info = AuditInfo::default();
@@ -174,6 +177,7 @@ where
                             return Err(format!("node {} at level {lno} has child {} at level {}", e.node_id(), c.node_id(), cn.level()));
                         }
                         *expected.entry(c.node_id()).or_insert(0) += 1;
+                        children_of.entry(e.node_id()).or_default().push(c.node_id());
                     }
                     Node::Terminal(_) => {}
                 }
@@ -239,6 +243,23 @@ where
             return Err(format!("node {id}: ref_count() = {rc}, expected {exp} (handles + parent edges + manager-internal)"));
         }
     }
+    // reachability from handles and internal references
+    let mut reach: HashSet<usize> = HashSet::new();
+    let mut stack: Vec<usize> = vec![];
+    for r in roots {
+        if let Node::Inner(_) = m.get_node(r) {
+            stack.push(r.node_id());
+        }
+    }
+    stack.extend(internal_refs.keys().copied());
+    while let Some(id) = stack.pop() {
+        if reach.insert(id) {
+            if let Some(cs) = children_of.get(&id) {
+                stack.extend(cs.iter().copied());
+            }
+        }
+    }
+    info.unreachable = stored.keys().filter(|id| !reach.contains(id)).count();
     info.inner_nodes = total;
     info.nonempty_levels = nonempty;
     info.dead_nodes = dead;
@@ -312,10 +333,30 @@ pub trait BoolKind: 'static {
     }
     /// root node info: (is_terminal, level)
     fn root_level(f: &Self::F) -> Option<u32>;
+    /// quantification (q: 0 = exists, 1 = forall, 2 = unique); None if the kind has none
+    fn quant(_q: u8, _f: &Self::F, _vars: &Self::F) -> Option<oxidd::util::AllocResult<Self::F>> {
+        None
+    }
+    fn apply_quant(_q: u8, _op: oxidd::BooleanOperator, _f: &Self::F, _g: &Self::F, _vars: &Self::F) -> Option<oxidd::util::AllocResult<Self::F>> {
+        None
+    }
+    /// substitution through a (possibly reused) Subst object
+    fn substitute(_f: &Self::F, _s: &oxidd::Subst<Self::F>) -> Option<oxidd::util::AllocResult<Self::F>> {
+        None
+    }
+    fn gc(mr: &MRef<Self>) -> usize {
+        mr.with_manager_shared(|m| m.gc())
+    }
+    fn num_inner_nodes(mr: &MRef<Self>) -> usize {
+        mr.with_manager_shared(|m| m.num_inner_nodes())
+    }
+    fn gc_count(mr: &MRef<Self>) -> u64 {
+        mr.with_manager_shared(|m| m.gc_count())
+    }
 }
 
 macro_rules! bool_kind {
-    ($name:ident, $kind:expr, $sem:expr, $sname:expr, $modp:ident, $F:ty, $term_true:expr, $term_zero:expr, $is_zbdd:expr) => {
+    ($name:ident, $kind:expr, $sem:expr, $sname:expr, $modp:ident, $F:ty, $term_true:expr, $term_zero:expr, $is_zbdd:expr, {$($extra:tt)*}) => {
         pub struct $name;
         impl BoolKind for $name {
             const KIND: BKind = $kind;
@@ -354,6 +395,32 @@ macro_rules! bool_kind {
                     Node::Terminal(_) => None,
                 })
             }
+            $($extra)*
+        }
+    };
+}
+
+macro_rules! quant_subst_impl {
+    () => {
+        fn quant(q: u8, f: &Self::F, vars: &Self::F) -> Option<oxidd::util::AllocResult<Self::F>> {
+            use oxidd::BooleanFunctionQuant;
+            Some(match q {
+                0 => f.exists(vars),
+                1 => f.forall(vars),
+                _ => f.unique(vars),
+            })
+        }
+        fn apply_quant(q: u8, op: oxidd::BooleanOperator, f: &Self::F, g: &Self::F, vars: &Self::F) -> Option<oxidd::util::AllocResult<Self::F>> {
+            use oxidd::BooleanFunctionQuant;
+            Some(match q {
+                0 => f.apply_exists(op, g, vars),
+                1 => f.apply_forall(op, g, vars),
+                _ => f.apply_unique(op, g, vars),
+            })
+        }
+        fn substitute(f: &Self::F, s: &oxidd::Subst<Self::F>) -> Option<oxidd::util::AllocResult<Self::F>> {
+            use oxidd::FunctionSubst;
+            Some(f.substitute(s))
         }
     };
 }
@@ -371,7 +438,8 @@ bool_kind!(
     oxidd::bdd::BDDFunction,
     |t: &BDDTerminal| *t == BDDTerminal::True,
     |t: &BDDTerminal| *t == BDDTerminal::False,
-    false
+    false,
+    { quant_subst_impl!(); }
 );
 bool_kind!(
     BcddK,
@@ -382,7 +450,8 @@ bool_kind!(
     oxidd::bcdd::BCDDFunction,
     |_t: &BCDDTerminal| true,
     |_t: &BCDDTerminal| false,
-    false
+    false,
+    { quant_subst_impl!(); }
 );
 bool_kind!(
     ZbddK,
@@ -393,5 +462,6 @@ bool_kind!(
     oxidd::zbdd::ZBDDFunction,
     |t: &ZBDDTerminal| *t == ZBDDTerminal::Base,
     |t: &ZBDDTerminal| *t == ZBDDTerminal::Empty,
-    true
+    true,
+    {}
 );
